@@ -120,6 +120,33 @@ def rule_sib(ctx, f):
             ctx.check("encode_utf16" in names and "u16" in ty, "C19-SIB", "write_unicode#utf16-units",
                       "write_unicode formats a %s that does not come from char::encode_utf16 (origins: %s): text outside the Basic Multilingual Plane is written as one "
                       "number instead of a surrogate pair and reads back as different text" % (ty or "value", sorted(names)), t["span"], detail="{:04X} of each UTF-16 unit")
+    # range entries are written in the array form `<lo> <hi> [<text> <text> ..]`, which the reader inverts for every text.  The string form
+    # `<lo> <hi> <text>` is inverted only while the last byte of the text stays <= 0xFF (the reader stops incrementing there, as the format
+    # demands), so a writer that uses it must test that bound
+    wcfg = CFG(w)
+    wloops = wcfg.loops()
+    cids = [bi for bi, t in F.calls(w) if F.callee_name(t) == "font::write_cid"]
+    unis = [(bi, t) for bi, t in F.calls(w) if F.callee_name(t) == "font::write_unicode"]
+    lits = {}
+    for bi, t in F.calls(w):
+        for a0 in t["args"]:
+            if a0[0] == "const" and isinstance(a0[1], dict) and "str" in a0[1]:
+                lits[bi] = a0[1]["str"]
+    ctx.floor("C19-SIB", len(unis), 2, "write_unicode call sites in write_cmap (single entries, range entries)")
+    for k, (bi, t) in enumerate(sorted(unis)):
+        mine = [c for c in cids if wcfg.dominates(c, bi) and any(c in body and bi in body for body in wloops.values())]
+        if len(mine) < 2:
+            continue
+        opened = [l for l, txt in lits.items() if "[" in txt and wcfg.dominates(l, bi) and all(wcfg.dominates(c, l) for c in mine)]
+        guard = False
+        for i2, bb2 in enumerate(w["blocks"]):
+            if wcfg.dominates(i2, bi) and any(wcfg.dominates(c, i2) for c in mine):
+                for st in bb2["stmts"]:
+                    if st[0] == "assign" and st[2][0] == "binop" and st[2][1] in ("Lt", "Le", "Gt", "Ge") and any(F.const_int(o) in (0xff, 0x100) for o in (st[2][2], st[2][3])):
+                        guard = True
+        ctx.check(bool(opened) or guard, "C19-SIB", "write_cmap#range-form@%d" % k, "a range entry is written in the string form `<lo> <hi> <text>` with no test of the "
+                  "0xFF bound: the reader increments only the last byte of the text and stops at 0xFF, so a run that crosses a multiple of 256 loses its tail", t["span"],
+                  detail="range entries use the array form (or test the last byte against 0xFF)")
     # the reader accepts both range forms: a String arm and an Array arm for the third operand
     forms = set()
     for b in f.with_closures(r["id"]):
@@ -335,7 +362,22 @@ def rule_get_set(ctx, f):
                     fc_ok = fc_ok and val == "arg2"
                 elif pl[-1][0] == "deref" and val == "arg3":
                     stores += 1
+        # the growth arithmetic (padding count, element index) is computed from the OLD start of the table: no read of first_char
+        # follows its re-assignment on the path
+        i_fc = [i for i, e in enumerate(p.events) if e[0] == "assign" and len(e[2][1]) > 1 and e[2][1][-1][0] == "field" and e[2][1][-1][2] == "first_char"]
+        stale = False
+        if i_fc:
+            for i, e in enumerate(p.events):
+                if i > i_fc[0] and e[0] == "assign":
+                    rv = e[2][2]
+                    pls = [F.op_place(o) for o in ([rv[1]] if rv[0] == "use" else ([rv[2], rv[3]] if rv[0] == "binop" else ([rv[2]] if rv[0] in ("cast", "unop") else [])))]
+                    if rv[0] in ("ref", "rawptr"):
+                        pls.append(rv[1])
+                    if any(q and len(q) > 1 and q[-1][0] == "field" and q[-1][2] == "first_char" for q in pls):
+                        stale = True
         key = "_set#path%d" % (k + 1)
+        ctx.check(not stale, "C19-SET", key + ":old-start", "first_char is read after it was re-assigned on this path: the padding count / index is computed from the new "
+                  "start, so nothing is padded and the existing widths shift to other codes", s["span"], detail="growth arithmetic uses the old first_char")
         ctx.check(stores == 1, "C19-SET", key + ":store", "a path of _set stores the width %d times (expected exactly once)" % stores, s["span"], detail="width stored once")
         ctx.check(fc_ok, "C19-SET", key + ":first_char", "first_char is assigned something other than the code being set", s["span"], detail="first_char = cid")
         ctx.check(pad_ok, "C19-SET", key + ":padding", "padding entries are not the default width", s["span"], detail="repeat(self.default)")
